@@ -153,10 +153,10 @@ func part1Jobs(run *vlib.Run, bt *built) []*job {
 		jobs = append(jobs, mkJob(bt, corpus[1], 16, 1, 1, 60*time.Second))
 		return jobs
 	}
-	// thorough: bound 3 for every program at 8 and 16 bit, bound 4 (capped, caps reported) at 8 bit,
+	// thorough: bound 5 (capped at 6 minutes per program, caps reported) at 8 bit, bound 3 at 16 bit,
 	// complete interleaving space for p1 at 8/32/64 bit
 	for _, p := range corpus {
-		jobs = append(jobs, mkJob(bt, p, 8, 4, 8, 6*time.Minute))
+		jobs = append(jobs, mkJob(bt, p, 8, 5, 8, 6*time.Minute))
 	}
 	for _, p := range corpus {
 		jobs = append(jobs, mkJob(bt, p, 16, 3, 4, 4*time.Minute))
@@ -164,6 +164,7 @@ func part1Jobs(run *vlib.Run, bt *built) []*job {
 	for _, r := range []int{8, 32, 64} {
 		jobs = append(jobs, mkJob(bt, corpus[0], r, fullBound, 2, 4*time.Minute))
 	}
+	jobs = append(jobs, mkJob(bt, corpus[4], 8, fullBound, 4, 4*time.Minute)) // p5 (function call): every interleaving
 	return jobs
 }
 
